@@ -743,7 +743,7 @@ package mq
 //@     invariant 0 <= i && i <= len(kvPair) && i % 2 == 0
 //@     invariant len(*p) == old(len(*p)) + i / 2                                                               #C12
 //@     invariant (base(*p) == old(base(*p)) && cap(*p) == old(cap(*p))) || base(*p) >= old($wm)                #C12
-//@     invariant forall j in 0..len(kvPair): kvPair[j] == old(kvPair[j])                                       #C12
 //@     invariant forall k in 0..i/2: (*p)[old(len(*p)) + k][0] == old(kvPair[2*k]) && (*p)[old(len(*p)) + k][1] == old(kvPair[2*k+1])   #C12
 //@     invariant forall k in 0..old(len(*p)): (*p)[k] == old((*p)[k])                                          #C12
+//@     assigns *p, capelems(*p)
 //@     decreases len(kvPair) - i
